@@ -2,6 +2,10 @@
 
 Without a hazard every name only ever receives one inferred type and every expression is tame (so the model's TypeStable
 holds by construction); a hazard injects exactly one known way of re-typing a name.
+Builtin calls (`abs`, `min`, `max` of 2-3 arguments, `int()`, `float()`, `bool()`) occur in hazard-free programs only in their tame
+shapes: `abs/min/max` over int- and bool-typed operands (never `min/max` of two bool-typed operands), the conversions over any
+numeric operand.  Float operands to `abs/min/max` are the hazard `builtin-float-result` (K02e); `min/max` of two bools is the
+hazard `minmax-two-bools` (outside the model's side condition, expected to agree end to end).
 One abstract tree -> Python text, S-expression for the Lean model, flat list of written names."""
 from __future__ import annotations
 
@@ -9,7 +13,7 @@ import struct
 
 FLOATS = [0.5, 1.5, 2.25, 0.125, 3.0, 10.5, 0.75]
 HAZARDS = ["retype-int-then-float", "retype-float-then-int", "retype-in-branch", "retype-in-loop", "retype-aug", "int-true-division", "and-or-value",
-           "neg-bool", "stale-var-type", "branch-order", "loop-last-wins", "loop-last-wins-aug", "bool-aug", "copy-after-aug", "builtin-float-result", "sibling-branch-narrowing", "tuple-retype", "comprehension-shadow", "while-new-float"]
+           "neg-bool", "stale-var-type", "branch-order", "loop-last-wins", "loop-last-wins-aug", "bool-aug", "copy-after-aug", "builtin-float-result", "sibling-branch-narrowing", "tuple-retype", "comprehension-shadow", "while-new-float", "minmax-two-bools"]
 
 
 def f64hex(x: float) -> str:
@@ -17,11 +21,17 @@ def f64hex(x: float) -> str:
 
 
 class TyGen:
-    def __init__(self, rng, hazard=None, straight=False):
+    def __init__(self, rng, hazard=None, straight=False, builtins=False):
         self.r = rng
         self.hazard = hazard
         self.straight = straight
+        self.builtins = builtins        # builtin-call stream: half of the compound expressions are builtin calls
         self.n = 0
+
+    def kind(self, kinds, calls):
+        if self.builtins and self.r.random() < 0.5:
+            return self.r.choice(calls)
+        return self.r.choice(kinds)
 
     def fresh(self, p):
         self.n += 1
@@ -32,7 +42,18 @@ class TyGen:
         r = self.r
         if d <= 0 or r.random() < 0.35:
             return ("v", r.choice(sc["int"])) if sc["int"] and r.random() < 0.6 else ("i", r.randint(0, 9))
-        k = r.choice(["add", "sub", "mul", "neg", "ite", "boolarith", "boolsum"])
+        k = self.kind(["add", "sub", "mul", "neg", "ite", "boolarith", "boolsum", "abs", "minmax", "toint"], ["abs", "minmax", "toint"])
+        if k == "abs":          # abs of an int- or bool-typed operand: the table's int is what Python and the macro yield
+            return ("call", "abs", [self.int_e(sc, d - 1) if r.random() < 0.75 else self.bool_e(sc, d - 1)])
+        if k == "minmax":       # 2-3 operands, int- or bool-typed, the first two never both bool-typed (the macro would be typed bool)
+            args = [self.int_e(sc, d - 1), self.int_e(sc, d - 1) if r.random() < 0.6 else self.bool_e(sc, d - 1)]
+            if r.random() < 0.5:
+                args.reverse()
+            if r.random() < 0.3:
+                args.append(self.int_e(sc, d - 1) if r.random() < 0.6 else self.bool_e(sc, d - 1))
+            return ("call", r.choice(["min", "max"]), args)
+        if k == "toint":        # int() of any numeric operand (truncation toward zero on floats)
+            return ("call", "int", [r.choice([self.float_e, self.float_e, self.int_e, self.bool_e])(sc, d - 1)])
         if k == "boolsum":      # bool + bool is an int in Python (counting votes) and in the parser's table
             return (r.choice(["add", "mul", "sub"]), self.bool_e(sc, d - 1), self.bool_e(sc, d - 1))
         if k in ("add", "sub", "mul"):
@@ -49,8 +70,10 @@ class TyGen:
         r = self.r
         if d <= 0 or r.random() < 0.35:
             return ("v", r.choice(sc["float"])) if sc["float"] and r.random() < 0.6 else ("f", r.choice(FLOATS))
-        k = r.choice(["ff", "fi", "if", "div", "ite", "neg"])
+        k = self.kind(["ff", "fi", "if", "div", "ite", "neg", "tofloat"], ["tofloat"])
         op = r.choice(["add", "sub", "mul"])
+        if k == "tofloat":
+            return ("call", "float", [r.choice([self.int_e, self.int_e, self.float_e, self.bool_e])(sc, d - 1)])
         if k == "ff":
             return (op, self.float_e(sc, d - 1), self.float_e(sc, d - 1))
         if k == "fi":
@@ -72,7 +95,9 @@ class TyGen:
             if sc["bool"] and r.random() < 0.5:
                 return ("v", r.choice(sc["bool"]))
             return (r.choice(["lt", "le", "eq"]), self.int_e(sc, 0), self.int_e(sc, 0))
-        k = r.choice(["cmpi", "cmpf", "and", "or", "not", "lit"])
+        k = self.kind(["cmpi", "cmpf", "and", "or", "not", "lit", "tobool"], ["tobool"])
+        if k == "tobool":
+            return ("call", "bool", [r.choice([self.int_e, self.float_e, self.bool_e])(sc, d - 1)])
         if k == "cmpi":
             return (r.choice(["lt", "le", "eq"]), self.int_e(sc, d - 1), self.int_e(sc, d - 1))
         if k == "cmpf":
@@ -210,8 +235,16 @@ class TyGen:
             return [("as", x, ("f", 2.5)), ("if", [("lt", ("i", 1), ("i", 0)), ("lt", ("i", 0), ("i", 1))],
                                             [[("as", x, ("i", 1))], [("as", x + "s", ("mul", ("v", x), ("i", 3)))]], None), ("wr", x + "s")]
         if h == "builtin-float-result":
-            f = r.choice([("call", "abs", [("neg", ("f", 2.5))]), ("call", "max", [("f", 1.5), ("f", 2.25)]), ("call", "min", [("f", 1.5), ("i", 4)])])
+            # K02e: a float operand to abs/max/min — the table still says int; pinned shapes and random float-typed operands
+            fe = lambda: self.float_e(sc, 1)
+            f = r.choice([("call", "abs", [("neg", ("f", 2.5))]), ("call", "max", [("f", 1.5), ("f", 2.25)]), ("call", "min", [("f", 1.5), ("i", 4)]),
+                          ("call", "abs", [fe()]), ("call", "abs", [("neg", fe())]), ("call", "max", [fe(), fe()]), ("call", "min", [fe(), fe()]),
+                          ("call", "max", [self.int_e(sc, 1), fe()]), ("call", "min", [fe(), self.int_e(sc, 1)]),
+                          ("call", "max", [self.int_e(sc, 1), self.int_e(sc, 1), fe()])])
             return [("as", x, f), ("wr", x)]
+        if h == "minmax-two-bools":
+            # both operands bool-typed: the macro's ?: is typed bool by the compiler, int by the table; the int store still holds Python's 0/1
+            return [("as", x, ("call", r.choice(["min", "max"]), [self.bool_e(sc, 1), self.bool_e(sc, 1)])), ("wr", x)]
         if h == "loop-last-wins-aug":
             return [("for", self.fresh("k"), 2, [("as", x, ("i", 1)), ("aug", x, "add", ("f", 0.5))]), ("wr", x)]
         if h == "bool-aug":
@@ -231,8 +264,12 @@ class TyGen:
                 n = f"{p}{j}"
                 sc[c].append(n)
                 pre.append(("as", n, self.expr(c, {k: [] for k in sc})))
+        sc0 = {k: list(v) for k, v in sc.items()}      # the names assigned before the body: definitely assigned wherever a hazard is spliced in
         body = self.block(sc, 0, r.randint(2, 7))
-        if self.hazard:
+        if self.hazard in ("builtin-float-result", "minmax-two-bools"):
+            pos = r.randint(0, len(body))
+            body = body[:pos] + self.hazard_stmts(sc0) + body[pos:]
+        elif self.hazard:
             pos = r.randint(0, len(body))
             body = body[:pos] + self.hazard_stmts(sc) + body[pos:]
         tail = [("wr", n) for c in ("int", "float", "bool", "str") for n in sc[c]]
@@ -311,7 +348,14 @@ def sx_e(e):
     if k == "b": return f"(b {'T' if e[1] else 'F'})"
     if k == "s": return f"(s {e[1].encode().hex()})"
     if k == "v": return f"(v {e[1]})"
-    if k == "call": return "(i 0)"       # abs/max/min: the parser's table says int; the value is outside the model (oracle only)
+    if k == "call":
+        name, args = e[1], [sx_e(a) for a in e[2]]
+        if name in ("min", "max"):       # the emitter folds left into nested two-argument macro calls; Python's first-extreme-wins is the same fold
+            acc = args[0]
+            for a in args[1:]:
+                acc = f"({name} {acc} {a})"
+            return acc
+        return f"({ {'abs': 'abs', 'int': 'toint', 'float': 'tofloat', 'bool': 'tobool'}[name]} {args[0]})"
     if k in ("neg", "not"): return f"({k} {sx_e(e[1])})"
     if k == "ite": return f"(ite {sx_e(e[1])} {sx_e(e[2])} {sx_e(e[3])})"
     return f"({k} {sx_e(e[1])} {sx_e(e[2])})"
